@@ -297,7 +297,7 @@ func budget(r *vk.Run) time.Duration {
 func main() {
 	r := vk.Start("C03", "model_checking")
 	scenarios := []e1.Scenario{}
-	long, short := 3, 2
+	long, short := 4, 3
 	if r.Thorough() {
 		long, short = 5, 4
 	}
@@ -315,19 +315,25 @@ func main() {
 			scenarios = append(scenarios, scenario(op, path, n))
 		}
 	}
+	sweep := []string{"GetStatus"}
 	if r.Thorough() {
-		for _, name := range []string{"GetStatus", "GetCardByID", "PutCard", "GetTimeProfile", "GetEvent"} {
+		sweep = []string{"GetStatus", "GetCardByID", "PutCard", "GetTimeProfile", "GetEvent"}
+	}
+	{
+		for _, name := range sweep {
 			for _, path := range []string{"broadcast", "udp", "tcp"} {
 				scenarios = append(scenarios, scenarioX(spec.OpByName(name), path, 2, true))
 			}
 		}
+	}
+	if r.Thorough() {
 		e1.PerScenario = 6 * time.Minute
 	}
 	e1.RunAll(r, scenarios, budget(r))
 	if r.Worker == "" && r.Replay == "" {
 		e1.Conformance(r)
 	}
-	r.Rule("for each of the 31 directed operations x {broadcast, connected UDP, TCP}: every sequence of datagram classes " + fmt.Sprint(classNames[1:nRegular]) + fmt.Sprintf(" up to length %d (%d for GetStatus, GetCardByID, PutCard), chosen datagram by datagram by the environment; thorough: for 5 operations x 3 paths a first datagram of every length 0..1100 but 64 (well-formed 64-byte prefix) followed by a well-formed one;", short, long) + " distinct = distinct (sequence, outcome-kind) labels observed")
+	r.Rule("for each of the 31 directed operations x {broadcast, connected UDP, TCP}: every sequence of datagram classes " + fmt.Sprint(classNames[1:nRegular]) + fmt.Sprintf(" up to length %d (%d for GetStatus, GetCardByID, PutCard), chosen datagram by datagram by the environment; for GetStatus (thorough: 5 operations) x 3 paths a first datagram of every length 0..1100 but 64 (well-formed 64-byte prefix) followed by a well-formed one;", short, long) + " distinct = distinct (sequence, outcome-kind) labels observed")
 	r.Assume("simulated network vs/net.go models UDP/TCP delivery, deadlines and buffer truncation; its fidelity is validated on the loopback by the E3 replays where registered")
 	r.Assume("reference acceptor and decoder in /verif/spec")
 	r.Finish()
